@@ -17,6 +17,7 @@ EXPLANATION = (
   "matched by the reader's _TIMECODE_RE with all eight groups recovering the printed fields, including 3-digit hours; (TAB-tags) "
   "every tag the SRT writer emits (srt/style.py literals) is one the reader's handle_starttag has a styling branch for."
   " (STATE-alias / STATE-global) no function of the anchored modules mutates a module- or class-level container, rebinds module / class state or mutates a mutable default argument, so a result never depends on earlier calls;"
+  " (LINT-i) as in C04;"
 )
 RULE_TEXT = "EXA/DEF/NUL: per call site / function; FMT: per sample timing line; TAB-tags: per writer tag literal"
 UNDECIDED = ["tag scoping for nested/adjacent tags", "line splitting and blank-line handling", "counter tolerance"]
